@@ -441,6 +441,7 @@ impl Outcome {
 
 fn eval(c: &Case) -> Option<Outcome> {
     let req = Request::new(&c.url, &c.source, &c.ty).ok()?;
+    implrun::net::register_request(&req, &c.url, &c.source, &c.ty);
     let mut engine = Engine::from_rules_parametrised(c.rules.iter(), Default::default(), true, c.optimize);
     let mut set: BTreeSet<String> = BTreeSet::new();
     let mut steps = vec![];
@@ -470,8 +471,7 @@ fn eval(c: &Case) -> Option<Outcome> {
         }
         // the tag as written in the rule (not as stored by the parser)
         let tag = option_value_last(line, &["tag"]);
-        let mut rm = RegexManager::default();
-        if f.matches(&req, &mut rm) {
+        if implrun::net::rule_matches(f, &req) {
             // the directive is read off the rule text, not off the parsed rule
             candidates.push((tag, f.is_exception(), csp_value_of(line)));
         }
